@@ -1,6 +1,6 @@
 (* RunC01.v — executable wrappers for C01/C05 expression cases. *)
 From Coq Require Import ZArith List Bool.
-From V.Model Require Export Bits Shape Ast Denote PyRTL PyEval.
+From V.Model Require Export Bits Shape Ast Denote PyRTL PyEval Derived.
 From V.Harness Require Import Run.
 Import ListNotations.
 Open Scope Z_scope.
